@@ -1,6 +1,7 @@
 import Driver.Parse
 import FpVerif.Spec.JA3
 import FpVerif.Spec.Capture
+import FpVerif.Spec.H2Fp
 /-!
 `fpdriver`: reads one operation per line on stdin, answers one line per operation on stdout with the
 MODEL's (or the SPECIFICATION's) result. The definitions evaluated here are the ones the theorems in
@@ -69,6 +70,75 @@ def capSpec (stream : Bytes) (cuts : List String) : String := Id.run do
   | some b => return s!"ok:{b.length}:md5of:{toHex b} up=ok"
   | none => return "none up=ok"
 
+def dashList (v : String) (sep : String) : List String :=
+  if v = "" || v = "-" then [] else v.splitOn sep
+
+def parseSettings (v : String) : Option (List (Nat × Nat)) :=
+  (dashList v ";").mapM fun e => match e.splitOn "." with
+    | [a, b] => do pure (← a.toNat?, ← b.toNat?)
+    | _ => none
+
+def parsePrio (e : String) : Option Fp.H2Fp.Prio :=
+  match e.splitOn "." with
+  | [s, d, x, w] => do pure { stream := ← s.toNat?, dep := ← d.toNat?, excl := x = "1", weight := ← w.toNat? }
+  | _ => none
+
+def h2marshal (toks : List String) : Option String := do
+  let max ← (← kv toks "max").toNat?
+  let S ← parseSettings (← kv toks "S")
+  let wu ← (← kv toks "WU").toNat?
+  let P ← (dashList (← kv toks "P") ",").mapM parsePrio
+  let H ← (dashList (← kv toks "H") ";").mapM unhex
+  some (toHex (Fp.H2Fp.marshal { settings := S, wu := wu, prios := P, headers := H } max))
+
+def letterName (c : Char) : Option Bytes :=
+  match c with
+  | 'm' => some (strBytes ":method") | 'M' => some (strBytes ":method") | 's' => some (strBytes ":scheme")
+  | 'p' => some (strBytes ":path") | 'a' => some (strBytes ":authority") | 'x' => some (strBytes "x-k")
+  | 'u' => some (strBytes "user-agent") | 'c' => some (strBytes "cookie") | 't' => some (strBytes "x-trailer")
+  | _ => none
+
+/-- scripted client frame token -> the frame `processFrame` sees (header blocks reassembled) -/
+def parseFrameTok (tok : String) : Option Fp.H2Fp.Frame := do
+  let kind := (tok.take 1).toString
+  let rest := (tok.drop 2).toString
+  let p := rest.splitOn "."
+  match kind with
+  | "S" => some (.settings false (← parseSettings rest))
+  | "A" => some (.settings true [])
+  | "W" => match p with
+    | [s, i] => some (.windowUpdate (← s.toNat?) (← i.toNat?))
+    | _ => none
+  | "P" => (parsePrio rest).map .priority
+  | "H" => match p with
+    | [id, _es, pr, letters, _cont] =>
+      let id ← id.toNat?
+      let prio ← if pr = "-" then some none else
+        match pr.splitOn "_" with
+        | [d, x, w] => do pure (some { stream := id, dep := ← d.toNat?, excl := x = "1", weight := ← w.toNat? : Fp.H2Fp.Prio })
+        | _ => none
+      some (.headers id prio (← letters.toList.mapM letterName))
+    | _ => none
+  | "T" => match p with
+    | [id, _] => some (.headers (← id.toNat?) none [strBytes "x-trailer"])
+    | _ => none
+  | "D" | "R" | "G" => some .other
+  | _ => none
+
+/-- `useSpec`: answer with the specification (fpSpec of the delivered prefix) or with the model -/
+def h2fpRun (useSpec : Bool) (toks : List String) : Option String := do
+  let max ← (← kv toks "max").toNat?
+  let frames ← ((← kv toks "frames").splitOn ",").mapM fun t => do pure (t, ← parseFrameTok t)
+  let eval := fun (hist : List Fp.H2Fp.Frame) =>
+    if useSpec then Fp.Spec.H2Fp.fpSpec hist max else Fp.H2Fp.marshal (Fp.H2Fp.captureAll hist) max
+  let mut hist : Array Fp.H2Fp.Frame := #[]
+  let mut out : Array String := #[]
+  for (t, f) in frames do
+    hist := hist.push f
+    if t.startsWith "H" then out := out.push (toHex (eval hist.toList))
+  out := out.push ("final:" ++ toHex (eval hist.toList))
+  some (" ".intercalate out.toList)
+
 def handle (cmd : String) (args : List String) : String :=
   match cmd, args with
   | "ser", toks =>
@@ -108,6 +178,9 @@ def handle (cmd : String) (args : List String) : String :=
       | some stream => capSpec stream (if cuts = "" then [] else cuts.splitOn ",")
       | none => "bad-op"
     | _, _ => "bad-op"
+  | "h2fp", toks => (h2fpRun true toks).getD "bad-op"
+  | "h2fpm", toks => (h2fpRun false toks).getD "bad-op"
+  | "h2marshal", toks => (h2marshal toks).getD "bad-op"
   | _, _ => "bad-op"
 
 partial def loop (hin : IO.FS.Stream) (hout : IO.FS.Stream) : IO Unit := do
